@@ -30,3 +30,15 @@ Proof.
   rewrite forallb_forall in H. specialize (H d ltac:(destruct d; cbn; auto)).
   rewrite forallb_forall in H. exact (H m Hm).
 Qed.
+
+(* expected_batch_size generated from make_private: the integer part of N / L, whatever the floating-point sample rate is; in particular
+   exactly B when the loader has L batches of B samples *)
+Theorem expected_batch_size_integer_part {T} {N : Num T} (Nd L : Z) (r : T) : engine_expected_batch_size Nd L r = (Nd / L)%Z.
+Proof. reflexivity. Qed.
+Theorem expected_batch_size_exact {T} {N : Num T} (B L : Z) (r : T) : (0 < L)%Z -> engine_expected_batch_size (B * L) L r = B.
+Proof. intros H. rewrite expected_batch_size_integer_part. apply Z.div_mul. intros E; rewrite E in H; inversion H. Qed.
+(* the binary64 product the engine used before: int(N * fl(1/L)) is B - 1 for the loader of 49 batches of 64 samples *)
+From Coq Require Import Floats.PrimFloat.
+From OV Require Import Base.NumF.
+Example float_product_truncates_below : ntrunc (nmul (nofZ 3136%Z) (engine_sample_rate (T:=float) 49%Z)) = 63%Z.
+Proof. vm_compute. reflexivity. Qed.
